@@ -57,6 +57,9 @@ UNARY = {
     "!sub": lambda t: ("sub", False, [], t),
     "bindpar": lambda t: ("par", ["A"], cat(("rd", "A"), t)),
     "let": lambda t: ("par", ["P"], cat(("rd", "P"), ("let", ["A"], t), W("drop"), ("rd", "A"))),
+    # a let body that reworks the incoming slot and ends one deeper: the slot below must come out untouched
+    "letdup": lambda t: ("par", ["P"], cat(("rd", "P"), ("let", ["A"], cat(t, W("dup"))), ("rd", "A"),
+                                          ("par", ["X", "Y"], cat(("rd", "X"), ("rd", "Y"), W("add"), I(K), W("mod"))))),
     "block": lambda t: cat(("block", [], t), W("apply")),
     "fmtv": lambda t: ("par", ["A"], cat(("fmt", [("splice", cat(("rd", "A"), t))]), strval())),
     "fmtp": lambda t: ("par", ["A"], cat(("fmt", [b"x", ("splice", cat(("rd", "A"), t)), b"y"]), W("pos"), I(K), W("mod"), W("value"))),
